@@ -21,14 +21,14 @@ type FaultSpec struct {
 }
 
 type SchedSpec struct {
-	K        int     `json:"k"`                  // number of pre-emption points aimed at (0 = none)
-	Exact    bool    `json:"exact"`              // PCT-style exact placement (else geometric gaps)
-	HotBias  bool    `json:"hot_bias"`           // postpone a pre-emption to the next hot site
-	HotOnly  int     `json:"hot_only,omitempty"` // >0: pre-empt only at hot sites, each visit with this probability (percent)
-	Stall    int     `json:"stall"`              // task id starved after its first pre-emption, -1 none
-	StallFor int     `json:"stall_for"`          // number of scheduling decisions
+	K        int     `json:"k"`                   // number of pre-emption points aimed at (0 = none)
+	Exact    bool    `json:"exact"`               // PCT-style exact placement (else geometric gaps)
+	HotBias  bool    `json:"hot_bias"`            // postpone a pre-emption to the next hot site
+	HotOnly  int     `json:"hot_only,omitempty"`  // >0: pre-empt only at hot sites, each visit with this probability (percent)
+	Stall    int     `json:"stall"`               // task id starved after its first pre-emption, -1 none
+	StallFor int     `json:"stall_for"`           // number of scheduling decisions
 	StallSet []int   `json:"stall_set,omitempty"` // further tasks starved the same way (many-task runs)
-	LowPrio  int     `json:"low_prio"`           // task id only run when nothing else can, -1 none
+	LowPrio  int     `json:"low_prio"`            // task id only run when nothing else can, -1 none
 	MeanGap  int64   `json:"mean_gap,omitempty"`
 	Points   []int64 `json:"points,omitempty"` // the exact global yield indices drawn (informational; replay uses the schedule)
 }
@@ -912,8 +912,11 @@ func (x *execution) baselines() {
 				if x.noisy[k] {
 					continue
 				}
+				// address-like numbers are always masked: two sequential runs may by chance print
+				// the same heap address (the allocator reuses a freed slot) and so escape the
+				// "masked" bookkeeping above
 				d1, d3 := b1[t][o].dump, b3[t][o].dump
-				if x.masked[k] {
+				if d1 != d3 {
 					d1, d3 = maskAddrs(d1), maskAddrs(d3)
 				}
 				if d1 != d3 {
@@ -932,8 +935,8 @@ func (x *execution) baselines() {
 	for t := range b1 {
 		rec.BaseDigests[t] = make([]uint64, len(b1[t]))
 		for o := range b1[t] {
-			if !x.noisy[[2]int{t, o}] && !x.slow[[2]int{t, o}] && !x.masked[[2]int{t, o}] {
-				rec.BaseDigests[t][o] = Hash64(b1[t][o].dump) | 1
+			if !x.noisy[[2]int{t, o}] && !x.slow[[2]int{t, o}] {
+				rec.BaseDigests[t][o] = Hash64(maskAddrs(b1[t][o].dump)) | 1
 			}
 		}
 	}
@@ -944,11 +947,13 @@ func (x *execution) baselines() {
 // else has touched the library. The driver compares the digests with the sequential
 // outcomes of the main exploration (where another task's operation came first):
 // state that is set up once by whoever calls first, from that caller's arguments,
-// shows up as a difference.
-func ColdOrderRun(p *Plan) *Record {
+// shows up as a difference. reverse=false is the control: the same order as the main
+// exploration, again in a fresh process - an outcome that differs there too depends on
+// the process (or on nothing at all), not on who called first.
+func ColdOrderRun(p *Plan, reverse bool) *Record {
 	rec := &Record{Index: p.Index, RunSeed: p.RunSeed, Kind: p.Kind, Mode: p.Mode, NTasks: len(p.Tasks), Faults: map[string]int{}}
 	slow := map[[2]int]bool{}
-	rev := baseline(p, slow, true)
+	rev := baseline(p, slow, reverse)
 	for t := range rev {
 		for o := range rev[t] {
 			if rev[t][o].yields > maxBaselineYields {
@@ -961,7 +966,7 @@ func ColdOrderRun(p *Plan) *Record {
 		rec.BaseDigests[t] = make([]uint64, len(rev[t]))
 		for o := range rev[t] {
 			if !slow[[2]int{t, o}] {
-				rec.BaseDigests[t][o] = Hash64(rev[t][o].dump) | 1
+				rec.BaseDigests[t][o] = Hash64(maskAddrs(rev[t][o].dump)) | 1
 			}
 		}
 	}
@@ -1128,7 +1133,7 @@ func (x *execution) compare() {
 			if oc.yields != exp.yields {
 				rec.YieldDiffs++
 			}
-			if oc.dump == exp.dump || (x.masked[k] && maskAddrs(oc.dump) == maskAddrs(exp.dump)) {
+			if oc.dump == exp.dump || maskAddrs(oc.dump) == maskAddrs(exp.dump) {
 				continue
 			}
 			class := "diverge"
